@@ -483,8 +483,12 @@ Worse(x, y) == IF x = "must" \/ y = "must" THEN "must" ELSE IF x = "may" \/ y = 
 (* after a step S0 -> S1 made by a (non read-only) command `name a` executed in database d0 *)
 MarkWatch(S0, S1, d0, name, a, r) ==
   LET named == {a[i] : i \in 2..Len(a)}
+      (* consumer-group bookkeeping of a stream (deliveries, acknowledgements, claims, group administration) is not a change of the
+         key's value, existence or time to live: such a command may or may not abort a watcher (DESIGN Appendix B) *)
+      core(e) == IF e.t = "stream" THEN [e EXCEPT !.v.groups = <<>>] ELSE e
       status(d, k) ==
-        IF EntryAt(S0, d, k) # EntryAt(S1, d, k) THEN "must"
+        IF core(EntryAt(S0, d, k)) # core(EntryAt(S1, d, k)) THEN "must"
+        ELSE IF EntryAt(S0, d, k) # EntryAt(S1, d, k) THEN "may"
         ELSE IF name \in ReadOnlyCmds \/ r.t = "err" THEN "clean"
         ELSE IF name = "FLUSHALL" \/ (name = "FLUSHDB" /\ d = d0) THEN "may"
         ELSE IF d = d0 /\ k \in named THEN (IF name \in MustByName /\ r.t # "nil" THEN "must" ELSE "may")   \* (nil: SET NX/XX that did not set)
